@@ -46,8 +46,9 @@ def _ck(v):
 
 # ---------------------------------------------------------------- observation of one pair
 def build(x, seed):
-    rng = random.Random(seed)
-    return H.ts_expr(x, "n", rng, top=True)
+    """One spelling (TaskRef or Alias, Dict constructor form, plain or DataNode literal) for the whole node and for
+    both nodes of a pair, so that only the edit separates them."""
+    return H.ts_expr(x, "n", int(seed), top=True)
 
 
 def evaluate(node):
@@ -65,7 +66,7 @@ def observe(x, y, seed):
     from dask.tokenize import tokenize
     o = {"eq": False, "teq": False, "heq": "na", "vx": [], "vy": [], "err": ""}
     try:
-        nx, ny = build(x, seed), build(y, seed + 1)
+        nx, ny = build(x, seed), build(y, seed)
     except NotImplementedError as ex:
         return {"skip": "NotImplementedError: " + str(ex)[:60]}
     except Exception as ex:  # noqa: BLE001
@@ -122,19 +123,36 @@ def record_of(rid, case, o):
     return {"id": rid, "x": case["x"], "y": case["y"], "o": {k: o[k] for k in ("eq", "teq", "vx", "vy")}}
 
 
-def replay_cases(ctx, cases, report=True):
-    jobs = [(c, ctx.rng.randrange(1 << 30)) for c in cases]
-    out = []
-    for (case, seed), (tag, bad, o) in zip(jobs, pmap(_work, jobs, chunk=64)):
+def _work_any(job):
+    """One pool for everything: ("enum", case, seed) or ("rand", x, y, ed, at, seed)."""
+    if job[0] == "enum":
+        return _work(job[1:])
+    return _observe_random(job[1:])
+
+
+def absorb(ctx, jobs, results, report=True):
+    """Returns (triples of the enumerated pairs with the Python verdict, triples of random pairs for TLC alone)."""
+    enum, rnd = [], []
+    for job, res in zip(jobs, results):
+        if job[0] == "rand":
+            case, o = res
+            if "skip" in o:
+                ctx.skip(o["skip"])
+                continue
+            ctx.count(H._sortkey([case["x"], case["y"]]), case["ed"] != "same")
+            rnd.append((case, o, None))
+            continue
+        _t, case, seed = job
+        tag, bad, o = res
         if tag == "skip":
             ctx.skip(bad)
             continue
         ctx.count(H._sortkey([case["x"], case["y"]]), case["ed"] != "same")
-        out.append((case, o, bad))
+        enum.append((case, o, bad))
         if bad and report:
             ctx.violation(classify(case, bad), "nodes one '%s' edit apart (at a %s): %s" % (case["ed"], case["at"], "/".join(bad)),
                           {"case": case, "seed": seed, "observed": o, "clauses": bad})
-    return out
+    return enum, rnd
 
 
 def validate_records(ctx, triples, label, report=True):
@@ -297,34 +315,27 @@ def _observe_random(job):
     return {"x": x, "y": y, "ed": ed, "at": at}, observe(x, y, seed)
 
 
-def random_pairs(ctx, n, depths):
+def rand_jobs(ctx, n, depths):
     jobs = []
     while len(jobs) < n:
         x = random_expr(ctx.rng, ctx.rng.choice(depths))
         if x["e"] in ("ref", "quote") or not _well_typed(x):
             continue
         if ctx.rng.random() < 0.1:
-            jobs.append((x, copy.deepcopy(x), "same", x["e"], ctx.rng.randrange(1 << 30)))
+            jobs.append(("rand", x, copy.deepcopy(x), "same", x["e"], ctx.rng.randrange(1 << 30)))
             continue
         r = random_edit(ctx.rng, x)
         if r is None:
             continue
         y, ed, at = r
-        jobs.append((x, y, ed, at, ctx.rng.randrange(1 << 30)))
-    out = []
-    for case, o in pmap(_observe_random, jobs, chunk=64):
-        if "skip" in o:
-            ctx.skip(o["skip"])
-            continue
-        ctx.count(H._sortkey([case["x"], case["y"]]), case["ed"] != "same")
-        out.append((case, o, None))
-    return out
+        jobs.append(("rand", x, y, ed, at, ctx.rng.randrange(1 << 30)))
+    return jobs
 
 
 def run(ctx):
     import dask._task_spec  # noqa: F401 - before the worker processes are forked
     import dask.tokenize  # noqa: F401
-    deep = ctx.pick(250, 3000)
+    deep = ctx.pick(250, 2000)
     spec, cfg = ctx.model(ctx.spec("graph", "NodeEqMC.tla"), {"Deep": deep}, invariants=INVS)
     cases, _ = ctx.tlc_cases(spec, cfg, label="design+pairs:deep=%d" % deep, timeout=3000, seed=ctx.seed + 1, **TLC_OPTS)
     cases.sort(key=lambda c: H._sortkey([c["x"], c["y"], c["ed"]]))
@@ -334,13 +345,14 @@ def run(ctx):
     n_same = sum(1 for c in cases if c["same"])
     if n_same < 10 or n_same > len(cases) - 10:
         raise MachineryError("vacuous pair set: %d of %d pairs are semantically the same" % (n_same, len(cases)))
-    triples = replay_cases(ctx, cases)
+    jobs = [("enum", c, ctx.rng.randrange(1 << 30)) for c in cases]
+    jobs += rand_jobs(ctx, ctx.pick(6000, 20000), ctx.pick([2, 3], [2, 3, 4]))
+    triples, rnd = absorb(ctx, jobs, pmap(_work_any, jobs, chunk=128))
     for c in cases[:1] + [c for c in cases if c["ed"] == "swap"][:2]:
         ctx.sample({"x": c["x"], "y": c["y"], "edit": c["ed"], "at": c["at"], "same": c["same"]})
     broken = [t for t in triples if t[2]]
     clean = [t for t in triples if not t[2]]
     xval = ctx.rng.sample(clean, min(len(clean), ctx.pick(4000, 15000))) + broken
-    rnd = random_pairs(ctx, ctx.pick(6000, 40000), ctx.pick([2, 3], [2, 3, 4]))
     validate_records(ctx, xval + rnd, "trace-validation:enumerated-sample+random-pairs")
     ctx.exhaustive = False
     ctx.rule = ("case = ordered pair of task-object expressions one edit apart (or identical), built as two independent "
@@ -411,13 +423,13 @@ def selftest(ctx):
     ok &= not base
     mutants = [
         ("Task._get_token: keyword arguments left out of the token", ts, "Task._get_token",
-         "                self.kwargs,\n", "", ()),
+         "self.kwargs,\n", "", ()),
         ("Task._get_token: the function left out of the token", ts, "Task._get_token",
-         "                self.func,\n", "", ()),
+         "self.func,\n", "", ()),
         ("GraphNode.__eq__: compares types only", ts, "GraphNode.__eq__",
          "return tokenize(self) == tokenize(value)", "return True", ()),
         ("Task._get_token: positional arguments tokenized as a set", ts, "Task._get_token",
-         "                self.args,\n", "                sorted(tokenize(a) for a in self.args),\n", ()),
+         "self.args,\n", "sorted(tokenize(a) for a in self.args),\n", ()),
     ]
     for title, mod, name, old, new, also in mutants:
         with mutant(mod, name, old, new, also=also):
